@@ -140,7 +140,28 @@ def pinned_env(home, extra=None):
     }
     if extra:
         env.update(extra)
-    return env
+    return {k: v for k, v in env.items() if v is not None}
+
+
+def ambient_env(r, elsewhere="/"):
+    """Settings a user's shell may export and that must not change what fclones prints or does: colour conventions,
+    terminal type, locale, a PWD that does not name the working directory (as left behind by env -C, make -C,
+    find -execdir, a supervisor that chdir()s). A value of None removes the variable."""
+    e = {}
+    c = r.random()
+    if c < 0.3:
+        e.update({"NO_COLOR": None, "CLICOLOR_FORCE": "1"})
+    elif c < 0.4:
+        e.update({"NO_COLOR": None, "CLICOLOR": "1", "TERM": "xterm-256color"})
+    elif c < 0.5:
+        e.update({"NO_COLOR": None})
+    if r.random() < 0.3:
+        e["PWD"] = elsewhere
+    if r.random() < 0.2:
+        e.update({"LC_ALL": r.choice(["C", "POSIX", "en_US.UTF-8"]), "LANG": "C"})
+    if r.random() < 0.2:
+        e["COLUMNS"] = r.choice(["20", "400"])
+    return e
 
 
 class RunResult:
@@ -342,37 +363,58 @@ def rng_for(seed, *parts):
 def process_quiescent(pid, wait=6.0):
     """Decides whether a process that exceeded its watchdog is provably stuck (a hang) rather than slow.
 
-    Two samples `wait` seconds apart must show: the same set of threads; no read/write system calls and no
-    bytes transferred in between (/proc/<pid>/io); no child processes; and every thread but at most one asleep
-    with an unchanged context-switch count. One busy thread is tolerated because fclones keeps a status-line
-    refresh thread that spins in sleep(0) while a hidden progress bar exists; that thread does no I/O."""
-    def snap():
+    Two samples `wait` seconds apart must show, for the process and for each of its live descendants: the same set of
+    threads; no bytes transferred in between (/proc/<pid>/io); every thread asleep with an unchanged context-switch
+    count - except that in the process itself at most one busy thread is tolerated, because fclones keeps a
+    status-line refresh thread that spins in sleep(0) while a hidden progress bar exists (it does no I/O).
+    Zombie children (exited, not yet waited for) cannot make progress and are ignored."""
+    def descendants(root):
+        out, todo = [], [root]
+        while todo:
+            q = todo.pop()
+            try:
+                kids = subprocess.run(["pgrep", "-P", str(q)], stdout=subprocess.PIPE).stdout.split()
+            except Exception:
+                kids = []
+            for k in kids:
+                k = int(k)
+                try:
+                    with open("/proc/%d/stat" % k) as f:
+                        st = f.read().rsplit(")", 1)[1].split()[0]
+                except OSError:
+                    continue
+                if st != "Z":
+                    out.append(k)
+                    todo.append(k)
+        return out
+
+    def snap(q):
         out = {}
         try:
-            for t in os.listdir("/proc/%d/task" % pid):
-                with open("/proc/%d/task/%s/stat" % (pid, t)) as f:
+            for t in os.listdir("/proc/%d/task" % q):
+                with open("/proc/%d/task/%s/stat" % (q, t)) as f:
                     state = f.read().rsplit(")", 1)[1].split()[0]
                 sw = 0
-                with open("/proc/%d/task/%s/status" % (pid, t)) as f:
+                with open("/proc/%d/task/%s/status" % (q, t)) as f:
                     for l in f:
                         if l.startswith("voluntary_ctxt_switches") or l.startswith("nonvoluntary_ctxt_switches"):
                             sw += int(l.split()[1])
                 out[t] = (state, sw)
-            with open("/proc/%d/io" % pid) as f:
+            with open("/proc/%d/io" % q) as f:
                 io = f.read()
         except OSError:
             return None
         return out, io
-    a = snap()
+    pids = [pid] + descendants(pid)
+    a = {q: snap(q) for q in pids}
     time.sleep(wait)
-    b = snap()
-    if not a or not b or set(a[0]) != set(b[0]) or a[1] != b[1]:
+    if [pid] + descendants(pid) != pids:
         return False
-    try:
-        kids = subprocess.run(["pgrep", "-P", str(pid)], stdout=subprocess.PIPE).stdout.split()
-    except Exception:
-        kids = []
-    if kids:
-        return False
-    moving = [t for t in b[0] if not (b[0][t][0] == "S" and a[0][t] == b[0][t])]
-    return len(moving) <= 1
+    b = {q: snap(q) for q in pids}
+    for q in pids:
+        if not a[q] or not b[q] or set(a[q][0]) != set(b[q][0]) or a[q][1] != b[q][1]:
+            return False
+        moving = [t for t in b[q][0] if not (b[q][0][t][0] == "S" and a[q][0][t] == b[q][0][t])]
+        if len(moving) > (1 if q == pid else 0):
+            return False
+    return True
